@@ -239,6 +239,7 @@ void applyOption(TypedArgBase* a, const std::string& slot, const std::string& op
    else if (name == "def") a->setPrintDefault(true);
    else if (name == "unset") a->unsetFlag();
    else if (name == "inv") a->allowsInversion();
+   else if (name == "mix") a->setAllowMixIncSet();
    else if (name == "card")
    {
       if (p.at(0) == "max") a->setCardinality(pa::cardinality_max(std::stoi(p.at(1))));
